@@ -4,11 +4,12 @@ from coqterm import B, Rec
 import statelib as L
 from statelib import (C_LAUNCHED, C_BUILT, C_GUARD_WAIT, C_EXTENDED, C_FAILED, C_CLOSED,
                       S_NEW, S_REMAP, S_SENTCONNECT, S_SUCCEEDED, S_DETACHED, S_FAILED, S_CLOSED)
-from drive_C07 import Walker, enumerate_histories
+from drive_C07 import Walker, enumerate_histories, answer_build, with_builds
 
 CMETH = ['circuit_new', 'circuit_launched', 'circuit_extend', 'circuit_built', 'circuit_closed', 'circuit_failed']
 SMETH = ['stream_new', 'stream_succeeded', 'stream_attach', 'stream_detach', 'stream_closed', 'stream_failed']
-OPTAG = {'acl': 2, 'asl': 3, 'cl': 4, 'cu': 5, 'sl': 6, 'su': 7, 'wb': 8, 'wc': 9, 'cc': 10, 'sc': 11, 'ack': 12}
+OPTAG = {'acl': 2, 'asl': 3, 'cl': 4, 'cu': 5, 'sl': 6, 'su': 7, 'wb': 8, 'wc': 9, 'cc': 10, 'sc': 11, 'ack': 12,
+         'bc': 13, 'ext': 14, 'berr': 15}
 
 
 def all_ops(case):
@@ -101,6 +102,10 @@ class Runner:
             elif parts and parts[0] == 'CLOSESTREAM':
                 self.cur.append(['cmd', 1, int(parts[1])])
                 self.cmdq.append(int(parts[1]) in self.alive_s)
+            elif parts and parts[0] == 'EXTENDCIRCUIT':
+                for k, v in L.extend_cmd_code(text):
+                    self.cur.append(['cmd', 2 if k == 0 else k, v])
+                self.cmdq.append('build')
             return qc(cmd, *a, **kw)
         w.proto.queue_command = queue_command
 
@@ -184,8 +189,27 @@ class Runner:
                 w.pump()
                 if self.cmdq:
                     ok = self.cmdq.pop(0)
+                    if ok == 'build':
+                        raise IndexError('ack for an EXTENDCIRCUIT')
                     w.pending.pop(0)
                     w.send('250 OK' if ok else '552 Unknown circuit')
+            elif k == 'bc':
+                routers = [type('Relay', (), {'id_hex': '$' + L.FP[r]})() for r in op[1]]
+                self.wait(w.state.build_circuit(routers, using_guards=False), op[2])
+            elif k in ('ext', 'berr'):
+                w.pump()
+                if not self.cmdq or self.cmdq[0] != 'build':
+                    raise IndexError('no EXTENDCIRCUIT to answer')
+                self.cmdq.pop(0)
+                w.pending.pop(0)
+                if k == 'ext':
+                    self.alive_c.add(op[1])
+                    w.raised = 0
+                    w.send('250 EXTENDED %d' % op[1])
+                    if w.raised:
+                        self.cur.append(['raised', w.raised])
+                else:
+                    w.send("551 Couldn't start circuit")
             else:
                 raise ValueError(op)
             w.pump()
@@ -246,6 +270,10 @@ def enc_op(out, op):
             L.enc_event(out, e)
         return
     L.enc_num(out, OPTAG[k])
+    if k == 'bc':
+        L.enc_list(out, op[1], L.enc_num)
+        L.enc_num(out, op[2])
+        return
     for x in op[1:]:
         L.enc_num(out, x)
 
@@ -366,8 +394,30 @@ def make_case(rng, n_ops):
         return nextw[0]
 
     pe = rng.choice([0.45, 0.6])
+    builds = rng.random() < 0.5      # half of the cases: the application also asks Tor to build circuits
+    nb = [0]                         # EXTENDCIRCUITs not yet answered (no close command is outstanding then)
+
+    def answer():
+        for x in answer_build(rng, wk):
+            if x[0] == 'x':
+                tr.event(['c', x[1], C_EXTENDED, [], []])
+                ops.append(['ext', x[1]])
+            elif x[0] == 'xe':
+                ops.append(['berr'])
+            else:
+                event(x)
+        nb[0] -= 1
+
     while len(ops) < n_ops:
         r = rng.random()
+        if builds and outstanding[0] == 0 and rng.random() < 0.07:
+            ops.append(['bc', [rng.randrange(nrelay) for _ in range(rng.choice([0, 0, 1, 2]))], fresh()])
+            nb[0] += 1
+            tags.add('build')
+            continue
+        if nb[0] and rng.random() < 0.3:
+            answer()
+            continue
         if pending_end and rng.random() < 0.25:
             kind, ident = pending_end.pop(rng.randrange(len(pending_end)))
             if kind == 'c' and ident in wk.circs:
@@ -403,7 +453,7 @@ def make_case(rng, n_ops):
                 ops.append(['cl' if circ else 'sl', i, l])
         elif r < pe + 0.42:
             # a wait
-            k = rng.choice(['wb', 'wb', 'wc', 'cc', 'cc', 'sc', 'sc'])
+            k = rng.choice(['wb', 'wb', 'wc', 'cc', 'cc', 'sc', 'sc'] if nb[0] == 0 else ['wb', 'wb', 'wc'])
             objs = tr.sobjs if k == 'sc' else tr.cobjs
             if not objs:
                 continue
@@ -425,14 +475,19 @@ def make_case(rng, n_ops):
                     pending_end.append(('c' if k == 'cc' else 's', objs[i]['id']))
                 if rng.random() < 0.3:
                     ops.append([k, i, fresh()])      # repeated request
+                    outstanding[0] += 1
                     tags.add('repeated-close')
         else:
-            if outstanding[0] > 0 or rng.random() < 0.1:
+            if nb[0]:
+                answer()
+            elif outstanding[0] > 0 or rng.random() < 0.1:
                 ops.append(['ack'])
                 outstanding[0] = max(0, outstanding[0] - 1)
     if rng.random() < 0.7:
         for _ in range(outstanding[0]):
             ops.append(['ack'])
+        while nb[0]:
+            answer()
     return {'cons': cons, 'pre': pre, 'snap': snap, 'ops': ops, 'tags': sorted(tags | wk.tags)}
 
 
@@ -450,7 +505,10 @@ class P(core.Prop):
             'or at any position, listen/unlisten on live and dead objects, when_built / when_closed / close requested on '
             'live objects (80%) and on objects already gone, repeated close requests, and the acknowledgement of each '
             'close command at a random later position (before or after the CLOSED/FAILED event, which is scheduled with '
-            'probability 0.8 after a close); Tor answers a close command 250 iff it has the id at submission. '
+            'probability 0.8 after a close); Tor answers a close command 250 iff it has the id at submission; in half of '
+            'the cases build_circuit() calls (while no close command is outstanding) and Tor\'s answer to the oldest one '
+            '(250 EXTENDED n just after CIRC n LAUNCHED, for an announced circuit without hops, or before the first event '
+            'of n; or 551), with listens / when_built on the announced object in between. '
             'non-trivial = a listener was registered and notified, and a wait completed; distinct = distinct history')
     trusted = ['harness/statelib.py (see C07) and harness/drive_C08.py: recording ICircuitListener / IStreamListener '
                'doubles, the recorder added with addBoth to every returned Deferred (transparent for values, consumes '
@@ -487,7 +545,7 @@ class P(core.Prop):
         n = len(ops)
         size = 'n<15' if n < 15 else 'n<40' if n < 40 else 'n>=40'
         kinds = set(o[0] for o in ops)
-        feats = [k for k in ('wb', 'wc', 'cc', 'sc', 'cu', 'su') if k in kinds]
+        feats = [k for k in ('wb', 'wc', 'cc', 'sc', 'cu', 'su', 'bc', 'ext', 'berr') if k in kinds]
         tags = case.get('tags') or []
         extra = [t for t in ('repeated-close', 'wait-on-gone-object') if t in tags]
         return size + '/' + '+'.join(feats + extra)
@@ -544,7 +602,14 @@ class P(core.Prop):
                             out.append(build([(pos, [kind, 0, 1]), (ack, ['ack'])], [['acl', 0], ['asl', 0]]))
                     else:
                         out.append(build([(pos, [kind, 0, 1])], [['acl', 0], ['asl', 0]]))
-        return out, ('every legal history of exactly 4 events over 1 circuit id x 1 stream id (C07 alphabet), each with '
+        conv = {'b': lambda x: ['bc', x[1], 1], 'x': lambda x: ['ext', x[1]], 'xe': lambda x: ['berr']}
+        for h in enumerate_histories((1,), (1,), 3):
+            for c in with_builds(h):
+                ops = [conv[x[0]](x) if x[0] in conv else ['ev', x] for x in c['evs']]
+                out.append({'cons': [], 'pre': [['acl', 0], ['asl', 0]], 'snap': [], 'ops': ops, 'tags': ['exhaustive']})
+        return out, ('every legal history of exactly 3 events over 1 circuit id x 1 stream id with two pre-registered listeners, '
+                     'crossed with one build_circuit() and its answer (EXTENDED 1 where legal, or an error) at every pair of '
+                     'positions; every legal history of exactly 4 events over 1 circuit id x 1 stream id (C07 alphabet), each with '
                      'two pre-registered listeners, crossed with (a) one more global circuit / stream listener added at every '
                      'position, (b) one when_built / when_closed / Circuit.close / Stream.close on the first object at every '
                      'position where it exists (also after it is gone), the acknowledgement of a close at every later position')
